@@ -12,7 +12,7 @@ from .explorer import EX, Unsupported, explore_iter
 
 PID = "C12"
 _G = {}
-KINDS = ("valid", "valid2", "fast_first", "unknown_pgn", "malformed", "rejected", "blank")
+KINDS = ("valid", "valid2", "fast_first", "unknown_pgn", "unsupported", "malformed", "rejected", "blank")
 CBK = ("ok", "raises", "slow")
 
 
@@ -52,6 +52,21 @@ def packet(N, client, kind, src):
             raw = bytearray(raw.replace(b"F112", b"F2FF", 1))
         else:
             raw = bytearray(raw.replace(b"1F112", b"1F2FF", 1))
+        return bytes(raw)
+    if kind == "unsupported":
+        # PGN 65240 (ISO commanded address): the library knows the PGN but has no support for its transport type and
+        # raises a plain Exception for it - neither a value nor a framing error
+        m = dec._decode(127250, 2, src, 255, ts, bytes([src, 0x10, 0x27, 0xFF, 0x7F, 0xFF, 0x7F, 0xFD][::-1]), b"")
+        raw = bytearray(_wire(N, enc, client, m))
+        if client == "ebyte":
+            raw[1], raw[2], raw[3] = 0x08, 0xFE, 0xD8
+        elif client == "waveshare":
+            raw[6], raw[7], raw[8] = 0xD8, 0xFE, 0x08
+            raw[19] = sum(raw[2:19]) & 0xFF
+        elif client == "yacht":
+            raw = bytearray(raw.replace(b"09F112", b"08FED8", 1))
+        else:
+            raw = bytearray(raw.replace(b"1F112", b"0FED8", 1))
         return bytes(raw)
     if kind == "malformed":
         if client == "ebyte":
@@ -123,7 +138,7 @@ def segment(stream, mode, a=0, b=0, c=0):
 
 def scenario(R, N, client, kinds, seg, cb_beh):
     tr = {"got": [], "states": [], "cb_calls": 0}
-    packets = [packet(N, client, k, 10 + i) for i, k in enumerate(kinds)]
+    packets = [packet(N, client, k, 10 + i % 200) for i, k in enumerate(kinds)]
     stream = b"".join(packets)
     chunks = [c for c in segment(stream, *seg) if c]
 
@@ -196,6 +211,11 @@ def _worker(job):
             segs = (("whole",), ("bytewise",), ("chunk7",), ("chunk21",)) + ((("chunk2",), ("chunk3",), ("chunk13",), ("chunk20",), ("chunk33",)) if deep else ())
             seg = segs[ex.choose(len(segs))]
             cb = (CBK[ex.choose(3)], CBK[ex.choose(3)])
+        elif part == "burst":
+            # a long burst arriving at once while the first callbacks are slow: a backlog of several hundred decoded messages
+            kinds = ("valid", "valid2") * 300
+            seg = (("whole",), ("chunk21",))[ex.choose(2)]
+            cb = ("slow", "ok")
         elif part == "callbacks":
             # every pattern of returning / raising / slow callbacks over the first four deliveries of an all-valid stream
             kinds = ("valid", "valid2", "valid", "valid2", "valid")
@@ -203,15 +223,15 @@ def _worker(job):
             cb = tuple(CBK[ex.choose(3)] for _ in range(4))
         elif part == "cut3":
             kinds = (("valid", "valid2", "valid"), ("malformed", "valid", "unknown_pgn", "valid2"), ("valid", "rejected", "valid2"))[ex.choose(3)]
-            total = len(b"".join(packet(N, client, k, 10 + i) for i, k in enumerate(kinds)))
+            total = len(b"".join(packet(N, client, k, 10 + i % 200) for i, k in enumerate(kinds)))
             a = 1 + ex.choose(total - 3)
             b = a + 1 + ex.choose(min(2, total - a - 2))
             c_ = b + 1 + ex.choose(min(2, total - b - 1))
             seg = ("cut3", a, b, c_)
             cb = ("ok", "ok")
         else:
-            kinds = (("valid", "valid2", "valid"), ("malformed", "valid", "unknown_pgn", "valid2"), ("fast_first", "valid", "valid2"), ("valid", "rejected", "valid2"))[ex.choose(4)]
-            total = len(b"".join(packet(N, client, k, 10 + i) for i, k in enumerate(kinds)))
+            kinds = (("valid", "valid2", "valid"), ("malformed", "valid", "unknown_pgn", "valid2"), ("fast_first", "valid", "valid2"), ("valid", "rejected", "valid2"), ("valid", "unsupported", "valid2"))[ex.choose(5)]
+            total = len(b"".join(packet(N, client, k, 10 + i % 200) for i, k in enumerate(kinds)))
             a = 1 + ex.choose(total - 1)
             if part == "cut1":
                 seg = ("cut1", a, 0)
@@ -232,7 +252,8 @@ def _worker(job):
             pr = judge(res if isinstance(res, dict) else {}, res, env) if isinstance(res, (dict, BaseException)) else ["no trace"]
             if pr:
                 rep.violation({"kind": "delivery", "client": client, "seg": seg[0], "what": pr[0].split(" ")[0]},
-                              "%s client, stream %r, segmentation %r, callback %r: %s" % (client, list(kinds), list(seg), list(cb), "; ".join(pr[:2])),
+                              "%s client, stream %s, segmentation %r, callback %r: %s" % (client, list(kinds) if len(kinds) <= 8 else "of %d packets (%s, %s, ...)" % (len(kinds), kinds[0], kinds[1]),
+                                                                                    list(seg), list(cb), "; ".join(x[:600] for x in pr[:2])),
                               {"kind": "delivery", "client": client, "kinds": list(kinds), "seg": list(seg), "cb": list(cb)})
             if len(rep.samples) < 1 and isinstance(res, dict):
                 rep.sample({"client": client, "stream_kinds": list(kinds), "segmentation": list(seg), "callback": list(cb), "delivered": res["got"]})
@@ -251,10 +272,11 @@ def run(tier, seed):
     rep.bounds = {"stream": "%d packets from %r (all combinations) and four fixed streams of 3-5 packets" % (4 if deep else 3, KINDS),
                   "segmentation": "whole, byte-wise, 7- and 21-byte chunks%s for every kind combination; every single cut position and every pair%s of nearby cut positions for the fixed streams" % (
                       " (thorough: also 2, 3, 13, 20, 33)" if deep else "", " and triple" if deep else ""),
-                  "callback": "each of the first two deliveries returns / raises / sleeps 0.7 s; for an all-valid 5-packet stream every pattern over the first four deliveries", "clients": list(aio.CLIENTS)}
+                  "callback": "each of the first two deliveries returns / raises / sleeps 0.7 s; for an all-valid 5-packet stream every pattern over the first four deliveries; "
+                              "a burst of 600 packets arriving at once behind a slow first callback", "clients": list(aio.CLIENTS)}
     rep.outside = ["streams longer than 5 packets", "more than three arbitrary cut positions"]
     rep.stubs = ["scripted transport feeding the real StreamReader chunk by chunk on the virtual clock"]
-    parts = ("kinds", "cut1", "cut2", "callbacks", "cut3") if tier == "thorough" else ("kinds", "cut1", "cut2", "callbacks")
+    parts = ("kinds", "cut1", "cut2", "callbacks", "burst", "cut3") if tier == "thorough" else ("kinds", "cut1", "cut2", "callbacks", "burst")
     jobs = [(c, p) for c in aio.CLIENTS for p in parts]
     res = run_jobs(rep, _worker, jobs, timeout_s=800 if tier == "quick" else 4000)
     n = sum(p["n"] for p in res if p and "n" in p)
